@@ -362,19 +362,21 @@ Proof.
     replace (m * (c * b)) with ((c * m) * b) by ring. rewrite H. ring.
 Qed.
 
-Lemma const_agree k t lit : float_region k = false -> const_y k t lit = const_g k t lit.
+Lemma const_agree k t lit : const_region k = false -> const_y k t lit = const_g k t lit.
 Proof.
-  destruct k; try reflexivity. simpl. intros H. apply negb_false_iff in H.
+  destruct k; try reflexivity; [intros H; vm_compute in H; discriminate|].
+  unfold const_region. cbn [rune_region]. rewrite orb_false_r.
+  simpl. intros H. apply negb_false_iff in H.
   destruct (is_pow2_spec d H) as (j & Hj & ->).
   assert (Y := y_fixconst_dyadic n j Hj). destruct (y_fixconst n (2 ^ j)) as [M E]. destruct Y as [HE HY].
   f_equal. destruct (parse_literal t lit) as [[a b]|]; [|reflexivity]. simpl.
   apply q_eqb_shift; simpl; try assumption. apply Z.pow_pos_nonneg; lia.
 Qed.
 
-Lemma obj_row_ok_agree f tp name k fm : float_region k = false ->
+Lemma obj_row_ok_agree f tp name k fm : const_region k = false ->
   obj_row_ok const_y f tp name k fm = obj_row_ok const_g f tp name k fm.
 Proof.
-  intros H. destruct k, fm; try reflexivity. exact (const_agree (KUFloat n d) t lit H).
+  intros H. destruct k, fm; try reflexivity; exact (const_agree _ t lit H).
 Qed.
 
 (** outside the region of the finding the generator model emits exactly what the property demands *)
@@ -391,6 +393,37 @@ Qed.
 Corollary row_ok_y_g g f r : row_ok const_y g f r = true -> row_region g r = false -> row_ok const_g g f r = true.
 Proof. intros H R. now rewrite <- row_ok_agree. Qed.
 
+(** * The untyped kind of integer-valued constants (second finding) *)
+
+(** for EVERY untyped rune constant and every literal: what the generator emits is not what the
+    property demands (the token, hence the default type, differs) ... *)
+Theorem const_rune_disagree z t lit : const_y (KURune z) t lit = true -> const_g (KURune z) t lit = false.
+Proof.
+  cbn [const_y const_g]. intros H. apply andb_true_iff in H. destruct H as [Ht _].
+  destruct t; try discriminate. reflexivity.
+Qed.
+
+(** ... but the VALUE is exact: the literal is an INT literal whose value is the constant's *)
+Theorem const_rune_value z t lit : const_y (KURune z) t lit = true ->
+  t = TINT /\ exists n d, parse_literal TINT lit = Some (n, d) /\ n * 1 = z * d.
+Proof.
+  cbn [const_y]. intros H. apply andb_true_iff in H. destruct H as [Ht Hv].
+  destruct t; try discriminate. split; [reflexivity|]. unfold oq_eqb in Hv.
+  destruct (parse_literal TINT lit) as [[n d]|]; [|discriminate].
+  unfold q_eqb in Hv; simpl in Hv. apply Z.eqb_eq in Hv. eauto.
+Qed.
+
+(** lifted to bound expressions: whatever the generator model accepts for an untyped rune constant
+    is an INT literal of exactly the constant's value, and G rejects it *)
+Theorem obj_row_rune_spec f tp name z fm : obj_row_ok const_y f tp name (KURune z) fm = true ->
+  (exists lit n d, fm = FLit TINT lit /\ parse_literal TINT lit = Some (n, d) /\ n * 1 = z * d)
+  /\ obj_row_ok const_g f tp name (KURune z) fm = false.
+Proof.
+  destruct fm as [| | | | |t lit| |]; try discriminate. cbn [obj_row_ok]. intros H.
+  destruct (const_rune_value z t lit H) as (-> & n & d & E & V).
+  split; [exists lit, n, d; auto|]. now apply const_rune_disagree.
+Qed.
+
 (* ------------------------------------------------------------------ *)
 (** * G as a relation: what it means for a bound expression to denote an object *)
 
@@ -406,6 +439,8 @@ Inductive denotes (f : file) (tp : tpkg) (name : str) : kind -> form -> Prop :=
 | D_const q : qualifier f tp = Some q -> denotes f tp name KConstId (FSel q name)
 | D_int z t lit n d : t = TINT \/ t = TCHAR -> parse_literal t lit = Some (n, d) -> n * 1 = z * d ->
     denotes f tp name (KUInt z) (FLit t lit)
+| D_rune z lit n d : parse_literal TCHAR lit = Some (n, d) -> n * 1 = z * d ->
+    denotes f tp name (KURune z) (FLit TCHAR lit)
 | D_float n0 d0 lit n d : parse_literal TFLOAT lit = Some (n, d) -> n * d0 = n0 * d ->
     denotes f tp name (KUFloat n0 d0) (FLit TFLOAT lit)
 | D_string b lit : unquote lit = Some b -> denotes f tp name (KUString b) (FLit TSTRING lit)
@@ -439,6 +474,11 @@ Proof.
       unfold q_eqb in Hv; simpl in Hv. apply Z.eqb_eq in Hv.
       apply D_int with (n := n) (d := d); try assumption.
       apply orb_true_iff in Ht. destruct Ht as [Ht|Ht]; apply tok_eqb_eq in Ht; auto.
+    + (* KURune *)
+      apply andb_true_iff in H. destruct H as [Ht Hv]. apply tok_eqb_eq in Ht. subst t. unfold oq_eqb in Hv.
+      destruct (parse_literal TCHAR lit) as [[n d]|] eqn:E; [|discriminate].
+      unfold q_eqb in Hv; simpl in Hv. apply Z.eqb_eq in Hv.
+      now apply D_rune with (n := n) (d := d).
     + (* KUFloat *)
       apply andb_true_iff in H. destruct H as [Ht Hv]. apply tok_eqb_eq in Ht. subst t. unfold oq_eqb in Hv.
       destruct (parse_literal TFLOAT lit) as [[n' d']|] eqn:E; [|discriminate].
@@ -458,6 +498,7 @@ Proof.
     + apply andb_true_iff; split.
       * destruct H as [->| ->]; reflexivity.
       * rewrite H0. unfold oq_eqb, q_eqb; simpl. now apply Z.eqb_eq.
+    + rewrite H. unfold oq_eqb, q_eqb; simpl. now apply Z.eqb_eq.
     + rewrite H. unfold oq_eqb, q_eqb; simpl. now apply Z.eqb_eq.
     + rewrite H. apply seqb_refl.
     + apply andb_true_iff; split; [apply seqb_refl|now apply smem_In].
@@ -604,6 +645,56 @@ Proof. intros H f r Hf Hr Hreg. apply row_ok_y_g; [|assumption]. now apply (chec
 
 Lemma check_groups_In gs : check_groups gs = true -> forall g, In g gs -> check_group g = true.
 Proof. unfold check_groups. intros H g Hg. rewrite forallb_forall in H. auto. Qed.
+
+(** cross-platform groups: rows and wrappers without exception, completeness up to the drift list *)
+Theorem check_xgroup_spec drift g : check_xgroup drift g = true ->
+  (forall f r, In f (g_files g) -> In r (f_rows f) -> row_ok const_y g f r = true)
+  /\ complete_upto drift g = true /\ forwards g = true.
+Proof.
+  unfold check_xgroup, rows_ok. intros H.
+  apply andb_true_iff in H. destruct H as [H Hf]. apply andb_true_iff in H. destruct H as [Hr Hc].
+  repeat split; try assumption.
+  intros f r Hin Hrin. rewrite forallb_forall in Hr. specialize (Hr f Hin).
+  rewrite forallb_forall in Hr. now apply Hr.
+Qed.
+
+Corollary check_xgroup_exact drift g : check_xgroup drift g = true ->
+  forall f r, In f (g_files g) -> In r (f_rows f) -> row_region g r = false -> row_ok const_g g f r = true.
+Proof. intros H f r Hf Hr Hreg. apply row_ok_y_g; [|assumption]. now apply (check_xgroup_spec drift g H). Qed.
+
+Lemma check_xgroups_In drift gs : check_xgroups drift gs = true -> forall g, In g gs -> check_xgroup drift g = true.
+Proof. unfold check_xgroups. intros H g Hg. rewrite forallb_forall in H. auto. Qed.
+
+Lemma nmem_In x l : nmem x l = true <-> In x l.
+Proof.
+  unfold nmem. rewrite exb_exists. split.
+  - intros (y & Hy & E). apply N.eqb_eq in E. now subst.
+  - intros H. exists x. split; [assumption | apply N.eqb_refl].
+Qed.
+
+(** what [complete_upto] means: an expected object without a row is one of the listed drift objects,
+    and the api lists say nothing about it *)
+Theorem complete_upto_spec drift g : complete_upto drift g = true -> g_complete g = true ->
+  forall tp t, In tp (g_truth g) -> In t (tp_objs tp) ->
+  obj_complete g tp t = true \/ (t_api t = ANone /\ In (t_id t) drift).
+Proof.
+  unfold complete_upto. intros H Hc tp t Htp Ht. rewrite Hc in H. cbn in H.
+  rewrite forallb_forall in H. specialize (H tp Htp). rewrite forallb_forall in H. specialize (H t Ht).
+  unfold obj_complete_upto in H. destruct (obj_complete g tp t); [now left|]. right.
+  unfold no_api in H. destruct (t_api t); [|discriminate]. split; [reflexivity|]. now apply nmem_In.
+Qed.
+
+(** with an empty drift list this is completeness itself *)
+Lemma obj_complete_upto_nil g tp t : obj_complete_upto [] g tp t = obj_complete g tp t.
+Proof. unfold obj_complete_upto. destruct (obj_complete g tp t); [reflexivity|]. destruct (no_api t); reflexivity. Qed.
+
+Lemma complete_upto_nil g : complete_upto [] g = complete g.
+Proof.
+  unfold complete_upto, complete. f_equal.
+  induction (g_truth g) as [|tp l IH]; cbn [forallb]; [reflexivity|]. rewrite IH. f_equal.
+  induction (tp_objs tp) as [|t l' IH']; cbn [forallb]; [reflexivity|].
+  now rewrite IH', obj_complete_upto_nil.
+Qed.
 
 (* ------------------------------------------------------------------ *)
 (** * Witnesses and packaged statements *)
